@@ -71,8 +71,10 @@ where
             }
         } else {
             // tracing::trace!("new entry for {}", id);
-            self.queue.insert(id, ReassembleQueue::new(total, seq, buf));
-            self.timer.push_back((id, Instant::now() + self.timeout));
+            let deadline = Instant::now() + self.timeout;
+            self.queue
+                .insert(id, ReassembleQueue::new(total, seq, buf, deadline));
+            self.timer.push_back((id, deadline));
             None
         }
     }
@@ -84,8 +86,11 @@ where
     pub fn timer(&mut self) {
         let now = Instant::now();
         for _ in 0..self.timer.partition_point(|x| x.1 < now) {
-            let id = self.timer.pop_front().unwrap().0;
-            self.queue.remove(&id);
+            let (id, deadline) = self.timer.pop_front().unwrap();
+            // the entry may belong to a younger frame reusing the id of one that completed
+            if self.queue.get(&id).map(|q| q.deadline == deadline) == Some(true) {
+                self.queue.remove(&id);
+            }
             // tracing::trace!("removed fragment queue {} by timer", id);
         }
     }
@@ -142,16 +147,21 @@ impl<T: Buf> Iterator for MakeFragments<T> {
 struct ReassembleQueue {
     bitmap: u128,
     fragments: Vec<Bytes>,
+    deadline: Instant,
 }
 
 impl ReassembleQueue {
-    fn new(total: u8, seq: u8, buf: Bytes) -> Self {
+    fn new(total: u8, seq: u8, buf: Bytes, deadline: Instant) -> Self {
         let total = total as usize;
         let this = seq as usize;
         let bitmap = !0u128 << total | 1 << this;
         let mut fragments = vec![Bytes::new(); total];
         fragments[this] = buf;
-        Self { bitmap, fragments }
+        Self {
+            bitmap,
+            fragments,
+            deadline,
+        }
     }
     fn add_fragment(&mut self, seq: u8, buf: Bytes) -> bool {
         let this = seq as usize;
